@@ -1166,4 +1166,40 @@ theorem safe_not_won (t : Thread) (h : t.safe = true) : t.won = false ∧ t.took
     cases pc <;> simp_all [Thread.safe, Thread.won, Thread.outcome]
     rename_i o; cases o <;> simp_all
 
+/-! ### the key space of the session database -/
+
+/-- two stores whose key paths (prefix segments joined with the separator, separator appended) are not a prefix of
+    one another never share a full key, whatever the (unescaped) keys are -/
+theorem fullKey_disjoint (p q k1 k2 : List Char) (h1 : p.isPrefixOf q = false) (h2 : q.isPrefixOf p = false) :
+    p ++ k1 ≠ q ++ k2 := by
+  intro h
+  rcases List.append_eq_append_iff.mp h with ⟨a, ha, _⟩ | ⟨c, hc, _⟩
+  · have : p <+: q := ⟨a, ha.symm⟩
+    rw [← List.isPrefixOf_iff_prefix] at this
+    simp [this] at h1
+  · have : q <+: p := ⟨c, hc.symm⟩
+    rw [← List.isPrefixOf_iff_prefix] at this
+    simp [this] at h2
+
+def pairwiseNonPrefix (l : List (List Char)) : Bool :=
+  l.all fun p => l.all fun q => p == q || !(p.isPrefixOf q)
+
+theorem pairwiseNonPrefix_disjoint (l : List (List Char)) (h : pairwiseNonPrefix l = true)
+    (p q : List Char) (hp : p ∈ l) (hq : q ∈ l) (hne : p ≠ q) (k1 k2 : List Char) : p ++ k1 ≠ q ++ k2 := by
+  unfold pairwiseNonPrefix at h
+  rw [List.all_eq_true] at h
+  have h1 := h p hp
+  have h2 := h q hq
+  rw [List.all_eq_true] at h1 h2
+  have a := h1 q hq
+  have b := h2 p hp
+  simp only [Bool.or_eq_true, beq_iff_eq, Bool.not_eq_true'] at a b
+  apply fullKey_disjoint
+  · rcases a with a | a
+    · exact absurd a hne
+    · exact a
+  · rcases b with b | b
+    · exact absurd b.symm hne
+    · exact b
+
 end Nuts.C05
